@@ -9,25 +9,6 @@ namespace WuffsVerif.Props.C03
 
 open WuffsVerif.Suspend
 
-/-- The suspending I/O built-ins that have a template, at a resumption point. -/
-inductive Call where
-  | readU8
-  | skip1
-  | skipN (scratch : UInt64)
-  | readEnter (be : Bool) (xx yy : Nat)
-  | readResume (be : Bool) (xx yy : Nat) (scratch : UInt64)
-  | writeU8 (scratch : UInt64)
-  deriving Repr
-
-/-- One resumption of the template. -/
-def run : Call → IO → Out
-  | .readU8, s => readU8 s
-  | .skip1, s => skip1 s
-  | .skipN sc, s => skipN s sc
-  | .readEnter be xx yy, s => readUxxEnter be xx yy s
-  | .readResume be xx yy sc, s => readUxxResume be xx yy s sc
-  | .writeU8 sc, s => writeU8 s sc
-
 theorem rdLoop_shortRead (be : Bool) (xx yy : Nat) : ∀ (fuel : Nat) (s : IO) (sc : UInt64) (s' : IO) (sc' : UInt64),
     rdLoop be xx yy fuel s sc = .shortRead s' sc' → s'.iop = s'.io2
   | 0, _, _, _, _, h => by simp [rdLoop] at h
@@ -154,13 +135,6 @@ theorem skip_conserves (s : IO) (sc : UInt64) (h1 : s.iop ≤ s.io2) (h2 : s.io2
       show s.iop + sc.toNat ≤ s.io2
       omega
 
-/-- Set the `closed` flag of whatever reader/writer an outcome carries. -/
-def Out.setClosed (b : Bool) : Out → Out
-  | .done s v => .done { s with closed := b } v
-  | .shortRead s sc => .shortRead { s with closed := b } sc
-  | .shortWrite s sc => .shortWrite { s with closed := b } sc
-  | .outOfFuel => .outOfFuel
-
 theorem load_setClosed (s : IO) (b : Bool) :
     ({ s with closed := b } : IO).load = ({ s.load.1 with closed := b }, s.load.2) := by
   unfold IO.load
@@ -217,9 +191,6 @@ theorem templates_ignore_closed (c : Call) (s : IO) (b : Bool) :
     split
     · rfl
     · unfold IO.store; split <;> rfl
-
-/-- Frame invariant of the pointers: inside the buffer, flag set. -/
-def Inv (s : IO) : Prop := s.iop ≤ s.io2 ∧ s.io2 ≤ s.buf.size ∧ s.ok = true
 
 theorem load_inv (s : IO) (h : Inv s) (hlt : s.iop < s.io2) : Inv s.load.1 ∧ s.load.1.io2 = s.io2 := by
   obtain ⟨h1, h2, h3⟩ := h
@@ -343,11 +314,6 @@ theorem suspend_templates_safe (c : Call) (s : IO) (h : Inv s) (hsz : s.io2 - s.
 
 /-- Non-vacuity: a state satisfying `Inv` on which `read_u32le?` really suspends after consuming the
 two available bytes, leaving the reader empty. -/
-def isShortReadAt (o : Out) (iop : Nat) (scratch : UInt64) : Bool :=
-  match o with
-  | .shortRead s' sc => s'.iop == iop && sc == scratch
-  | _ => false
-
 example : Inv ⟨#[1, 2, 3], 1, 3, false, true⟩ ∧
     isShortReadAt (run (.readEnter false 32 32) ⟨#[1, 2, 3], 1, 3, false, true⟩) 3 0x1000000000000302 = true := by
   refine ⟨⟨by decide, by decide, rfl⟩, ?_⟩
